@@ -2,6 +2,8 @@
 real NetworkXARMGraph.generate_adms() / ABCADMPropertyGraph.rewrite_delegations() run.  Concretise -> call -> project."""
 import json
 
+from . import plainjson
+
 from fim.graph import networkx_property_graph as nxpg
 from fim.graph.networkx_property_graph import NetworkXPropertyGraph, NetworkXGraphImporter
 from fim.graph.resources.networkx_arm import NetworkXARMGraph
@@ -27,10 +29,15 @@ def project_graph(imp, gid):
             if pn in d and not isinstance(text, str):
                 deleg[t] = {"?": tok(text)}
                 continue
-            ds = Delegations.from_json(json_str=text, atype=at) if isinstance(text, str) else None
-            if ds is None:
+            if not isinstance(text, str) or text == "":
                 continue
-            deleg[t] = {did: _det_token(dl.get_details_as_dict()) for did, dl in ds.delegations.items()}
+            try:
+                ent = plainjson.delegation_entries(text)
+            except Exception as e:                                # noqa: an undecodable stored delegation is an observation
+                deleg[t] = {"?undecodable": type(e).__name__}
+                continue
+            if ent:
+                deleg[t] = {did: _det_token(det) for did, det in ent.items()}
         other = {k: v for k, v in d.items() if k not in ("GraphID", "NodeID", "Class", "CapacityDelegations", "LabelDelegations",
                                                         "Name", "Type", "StitchNode")}
         props = other.get("Site") if set(other) == {"Site"} and d.get("Name") == d.get("NodeID") and d.get("Type") == TYPE_OF.get(d.get("Class")) \
@@ -80,13 +87,35 @@ class ARMRunner:
                 self.ARM_ID = g.graph_id
                 self.g = NetworkXPropertyGraph(graph_id=g.graph_id, importer=self.imp)
                 return "ok", {"k": "none"}
-            arm = NetworkXARMGraph(graph=self.g)
+            if op == "Grow":
+                nd = o["nd"]
+                props = {"Name": o["x"], "Type": TYPE_OF[nd["cls"]], "Site": nd["props"], "StitchNode": "true" if nd["stitch"] else "false"}
+                for t, pn, at in DPROP:
+                    ent = (nd["deleg"] or {}).get(t)
+                    if not ent:
+                        continue
+                    ds = Delegations(atype=at)
+                    for did, det in ent.items():
+                        d = Delegation(atype=at, delegation_id=did)
+                        d.set_details(_details(t, det))
+                        ds.add_delegations(d)
+                    props[pn] = ds.to_json()
+                self.g.add_node(node_id=o["x"], label=nd["cls"], props=props)
+                return "ok", {"k": "none"}
+            # ONE aggregate-model object per loaded model: it is a live view, and must not remember earlier partitions
+            if getattr(self, "arm", None) is None or self.arm_of is not self.g:
+                self.arm, self.arm_of = NetworkXARMGraph(graph=self.g), self.g
+            arm = self.arm
             guids = None
             adms = arm.generate_adms(delegation_guids=guids)
             out = {}
             for d, ag in adms.items():
-                if op == "PartitionAndRekey":
+                if op in ("PartitionAndRekey", "PartitionAndRekeyTwice"):
                     NetworkXADMGraph(graph_id=ag.graph_id, importer=self.imp).rewrite_delegations(real_adm_id="G-" + d)
+                if op == "PartitionAndRekeyTwice":
+                    NetworkXADMGraph(graph_id=ag.graph_id, importer=self.imp).rewrite_delegations(real_adm_id="G-" + d)
+                if op == "PartitionAndRekeySame":
+                    NetworkXADMGraph(graph_id=ag.graph_id, importer=self.imp).rewrite_delegations(real_adm_id=d)
                 out[d] = project_graph(self.imp, ag.graph_id)
             for ag in adms.values():
                 ag.delete_graph()
